@@ -12,7 +12,7 @@ LEVEL_TEXT = (
     'is the structural half of "every linearizable history is sequentially consistent". The iff is '
     'NOT decided.')
 
-FLOORS = {'C14-R1': 9, 'C14-R3': 8, 'C14-R4': 4, 'C14-R5': 2, 'C14-R6': 2}
+FLOORS = {'C14-R1': 9, 'C14-R3': 8, 'C14-R4': 4, 'C14-R5': 2, 'C14-R6': 2, 'C14-R7': 1}
 
 
 def prune_profile(F, ty):
@@ -55,6 +55,9 @@ def run(ctx):
     with ctx.rule('C14-R6', T.SC):
         T.search_is_pure_or_memo_complete(ctx, F, T.SC, 'C14-R6')
         T.candidates_are_independent(ctx, F, T.SC, 'C14-R6')
+    ctx.doc('C14-R7', 'on_invret is on_invoke followed by on_return (own override or trait default)')
+    with ctx.rule('C14-R7', T.SC):
+        T.invret_is_invoke_then_return(ctx, F, T.SC, 'C14-R7')
     c04.rule_r5(ctx, F, rule='C14-R4', types=[T.LIN, T.SC])
     for ty in (T.LIN, T.SC):
         ims = [im for im in F.impls_of('Clone') if im['self_tree'].get('path') == ty]
